@@ -589,10 +589,10 @@ func c15Stdin(kind, inPath string, payload []byte, tmp string) (f *os.File, clea
 		}
 		syscall.CloseOnExec(fds[1])
 		a, b := os.NewFile(uintptr(fds[0]), "c15-socket-stdin"), os.NewFile(uintptr(fds[1]), "c15-socket-peer")
-		go func() {
-			b.Write(payload)
-			syscall.Shutdown(fds[1], syscall.SHUT_WR)
-		}()
+		// synchronously, before the call (the payload fits the socket buffer): a goroutine that shuts down a RAW
+		// descriptor number late could hit the socket of the next request, which reuses the number
+		b.Write(payload)
+		syscall.Shutdown(fds[1], syscall.SHUT_WR)
 		return a, func() { b.Close() }, kind, nil
 	case "pty":
 		m, e := os.OpenFile("/dev/ptmx", os.O_RDWR|syscall.O_NOCTTY, 0)
@@ -604,7 +604,7 @@ func c15Stdin(kind, inPath string, payload []byte, tmp string) (f *os.File, clea
 			if e1 == 0 && e2 == 0 {
 				if sl, e3 := os.OpenFile("/dev/pts/"+strconv.Itoa(int(n)), os.O_RDWR|syscall.O_NOCTTY, 0); e3 == nil {
 					// a line typed on the terminal, then end of input (^D at the start of a line)
-					go func() { m.Write(append(append([]byte{}, payload...), 4)) }()
+					m.Write(append(append([]byte{}, payload...), 4)) // fits the terminal's input queue
 					return sl, func() { m.Close() }, kind, nil
 				}
 			}
